@@ -3,6 +3,9 @@
 // ships them.  Instrumented through vmon (post / exec_begin / exec_end, gate, stall detection).
 #ifndef DZN_PUMP_HH
 #define DZN_PUMP_HH
+#ifndef VMON_REAL_MUTEX
+#define VMON_REAL_MUTEX std::mutex
+#endif
 
 #include <condition_variable>
 #include <functional>
@@ -24,7 +27,7 @@ namespace dzn
 {
   struct pump
   {
-    std::mutex mutex;
+    VMON_REAL_MUTEX mtx_;
     std::condition_variable condition;
     std::queue<std::pair<long long, std::function<void()>>> queue;
     bool running = true;
@@ -44,7 +47,7 @@ namespace dzn
     ~pump()
     {
       {
-        std::lock_guard<std::mutex> g(mutex);
+        std::lock_guard<VMON_REAL_MUTEX> g(mtx_);
         running = false;
       }
       vmon::gate().open();
@@ -64,7 +67,7 @@ namespace dzn
         vsched::block_until([this] { return !queue.empty() || !running; }, "pump/idle");
 #endif
         {
-          std::unique_lock<std::mutex> l(mutex);
+          std::unique_lock<VMON_REAL_MUTEX> l(mtx_);
           condition.wait(l, [this] { return !queue.empty() || !running; });
           if (queue.empty()) return;
           task = std::move(queue.front());
@@ -77,7 +80,7 @@ namespace dzn
         task.second();
         { vmon::J j; j.n("task", task.first).p("pump", this); vmon::log("exec_end", j); }
         {
-          std::lock_guard<std::mutex> g(mutex);
+          std::lock_guard<VMON_REAL_MUTEX> g(mtx_);
           busy = false;
         }
         condition.notify_all();
@@ -89,7 +92,7 @@ namespace dzn
       long long id = vmon::fresh_id();
       { vmon::J j; j.n("task", id).p("pump", this); vmon::log("post", j); }
       {
-        std::lock_guard<std::mutex> g(mutex);
+        std::lock_guard<VMON_REAL_MUTEX> g(mtx_);
         queue.push(std::make_pair(id, e));
       }
       condition.notify_all();
@@ -97,7 +100,7 @@ namespace dzn
     // block until everything posted so far has been executed (driver-side helper, mock only)
     void vmon_quiesce()
     {
-      std::unique_lock<std::mutex> l(mutex);
+      std::unique_lock<VMON_REAL_MUTEX> l(mtx_);
       condition.wait(l, [this] { return queue.empty() && !busy; });
     }
   };
